@@ -48,7 +48,18 @@ def _search_batch(job):
             cp_ = v2patterns.compile_pattern(pat)
             rx = cp_.regexp
         except Exception as ex:  # pylint:disable=broad-except
-            out.append(dict(unclassified="compile error %s: %s" % (type(ex).__name__, ex), pat=pat, kind=kind))
+            # a pattern of the grammar (literal text with brackets escaped, no other backslash, no inner anchor) must compile: refusing it loses every occurrence
+            legal = False
+            if not _residual(pat.strip("^$")) and "\\" not in pat.replace("\\[", "").replace("\\]", ""):
+                try:
+                    glue.parse_pattern(pat, file_pattern=True, ambiguous="rtl" if kind == "adjacent" else "reject")
+                    legal = True
+                except glue.OutsideGrammar:
+                    pass
+            if legal:
+                out.append(dict(refused="%s: %s" % (type(ex).__name__, ex), pat=pat, kind=kind))
+            else:
+                out.append(dict(unclassified="compile error %s: %s" % (type(ex).__name__, ex), pat=pat, kind=kind))
             continue
         try:
             P = glue.parse_pattern(pat, file_pattern=True, ambiguous="rtl" if kind == "adjacent" else "reject")
@@ -249,6 +260,9 @@ def run(ctx):
     for e in [e for e in events if "loadfail" in e]:
         ctx.violation(dict(clause="search:config-loader-rejects-or-alters-the-pattern", kind=e["kind"], percent="%" in e["pat"]), case=dict(pattern=e["pat"], what=e["loadfail"]))
     events = [e for e in events if "loadfail" not in e]
+    for e in [e for e in events if "refused" in e]:
+        ctx.violation(dict(clause="search:pattern-of-the-grammar-refused", kind=e["kind"]), case=dict(pattern=e["pat"], what=e["refused"]))
+    events = [e for e in events if "refused" not in e]
     uncl = [e for e in events if "unclassified" in e]
     events = [e for e in events if "unclassified" not in e]
     ctx.count("unclassified_patterns", len(uncl))
